@@ -41,10 +41,14 @@ func NewWsProtoFunc(subProto ...erpc.ProtoFunc) erpc.ProtoFunc {
 		}
 		subConn := newVirtualConn()
 		p := &wsProto{
-			id:      'w',
-			name:    "websocket",
-			conn:    conn,
-			subConn: subConn,
+			id:         'w',
+			name:       "websocket",
+			conn:       conn,
+			subConn:    subConn,
+			maxPayload: conn.MaxPayloadBytes,
+		}
+		if p.maxPayload <= 0 {
+			p.maxPayload = ws.DefaultMaxPayloadBytes
 		}
 		if len(subProto) > 0 {
 			p.subProto = subProto[0](subConn)
@@ -56,11 +60,12 @@ func NewWsProtoFunc(subProto ...erpc.ProtoFunc) erpc.ProtoFunc {
 }
 
 type wsProto struct {
-	id       byte
-	name     string
-	conn     *ws.Conn
-	subProto socket.Proto
-	subConn  *virtualConn
+	id         byte
+	name       string
+	conn       *ws.Conn
+	subProto   socket.Proto
+	subConn    *virtualConn
+	maxPayload int // the connection's own payload limit
 }
 
 // Version returns the protocol's id and name.
@@ -82,6 +87,14 @@ func (w *wsProto) Pack(m erpc.Message) error {
 // Unpack reads bytes from the connection to the Message.
 // NOTE: Concurrent unsafe!
 func (w *wsProto) Unpack(m erpc.Message) error {
+	// the websocket layer buffers a whole message before the sub-protocol sees it:
+	// apply the message size limit there, so that an oversized frame is refused
+	// (and the session disconnected) before its payload is buffered
+	maxPayload := w.maxPayload
+	if limit := erpc.GetReadLimit(); uint64(limit) < uint64(maxPayload) {
+		maxPayload = int(limit)
+	}
+	w.conn.MaxPayloadBytes = maxPayload
 	err := ws.Message.Receive(w.conn, w.subConn.rBytes)
 	if err != nil {
 		return err
